@@ -553,5 +553,226 @@ theorem buildSt_reach (f : FatTree) (nodes : List FNode) (ci : Nat) (child : FNo
   · intro st y h
     exact h.mono (stepC_mono f nodes st y)
 
+/-! ### `find?`, `are_related`, existence of the neighbour with a given digit -/
+
+theorem find_key (es : List Entry) (a b : Nat) (hex : ∃ e, e ∈ es ∧ e.1 = a ∧ e.2.1 = b) :
+    ∃ e, e ∈ es ∧ e.1 = a ∧ e.2.1 = b ∧ (es.find? (fun e => e.1 == a && e.2.1 == b)).map (·.2.2) = some e.2.2 := by
+  cases h : es.find? (fun e => e.1 == a && e.2.1 == b) with
+  | none =>
+    obtain ⟨e, he, h1, h2⟩ := hex
+    have := List.find?_eq_none.mp h e he
+    simp [h1, h2] at this
+  | some e =>
+    have hp := List.find?_some h
+    simp only [Bool.and_eq_true, beq_iff_eq] at hp
+    exact ⟨e, List.mem_of_find?_eq_some h, hp.1, hp.2, rfl⟩
+
+theorem areRelated_spec {L : Nat} {p c : FNode} (h : areRelated L p c = true) :
+    p.level = c.level + 1 ∧ ∀ i, i < L → i ≠ c.level → p.label.getD i 0 = c.label.getD i 0 := by
+  unfold areRelated at h
+  simp only [Bool.and_eq_true, beq_iff_eq, List.all_eq_true, List.mem_range, Bool.or_eq_true] at h
+  refine ⟨h.1, fun i hi hne => ?_⟩
+  rcases h.2 i hi with e | e
+  · exact e
+  · omega
+
+theorem areRelated_intro {L : Nat} {p c : FNode} (h1 : p.level = c.level + 1)
+    (h2 : ∀ i, i < L → i ≠ c.level → p.label.getD i 0 = c.label.getD i 0) : areRelated L p c = true := by
+  unfold areRelated
+  simp only [Bool.and_eq_true, beq_iff_eq, List.all_eq_true, List.mem_range, Bool.or_eq_true]
+  refine ⟨h1, fun i hi => ?_⟩
+  by_cases e : i = c.level
+  · right; omega
+  · left; exact h2 i hi e
+
+/-- every digit of a node's label is below the radix of its level -/
+theorem node_digit_lt (f : FatTree) (hf : f.WF) (nodes : List FNode) (hN : NodesOk f nodes) (c : Nat) (n : FNode)
+    (hc : nodes[c]? = some n) (i : Nat) (hi : i < f.levels) : n.label.getD i 0 < (f.maxLabel n.level).getD i 0 := by
+  obtain ⟨_, j, _, _, hlab⟩ := hN.inv c n hc
+  rw [hlab]
+  exact digitsOf_lt _ (maxLabel_pos f hf _) j i (by rw [maxLabel_length]; exact hi)
+
+/-- all mixed-radix combinations occur at every level: the node of level `l'` labelled like `lab` except digit `p := v` -/
+theorem node_with_digit (f : FatTree) (nodes : List FNode) (hN : NodesOk f nodes)
+    (hbl : ∀ l, l ≤ f.levels → bl f l = prodL (f.maxLabel l)) (l' : Nat) (hl' : l' ≤ f.levels) (lab : List Nat) (p v : Nat)
+    (hv : p < f.levels → v < (f.maxLabel l').getD p 0)
+    (hlab : ∀ i, i < f.levels → i ≠ p → lab.getD i 0 < (f.maxLabel l').getD i 0) :
+    ∃ k n, k < bl f l' ∧ nodes[levelStart f l' + k]? = some n ∧ n.level = l' ∧
+      ∀ i, i < f.levels → n.label.getD i 0 = if i = p then v else lab.getD i 0 := by
+  obtain ⟨k, hk, hd⟩ := digitsOf_surj (f.maxLabel l') (fun i => if i = p then v else lab.getD i 0) (by
+    intro i hi
+    rw [maxLabel_length] at hi
+    by_cases e : i = p
+    · rw [if_pos e, e]; exact hv (e ▸ hi)
+    · rw [if_neg e]; exact hlab i hi e)
+  rw [← hbl l' hl'] at hk
+  obtain ⟨n, hn, hnl, hnlab⟩ := hN.get l' hl' k hk
+  refine ⟨k, n, hk, hn, hnl, ?_⟩
+  intro i hi
+  rw [hnlab]
+  exact hd i (by rw [maxLabel_length]; exact hi)
+
+theorem index_lt_top (f : FatTree) (l k : Nat) (hl : l < f.levels) (hk : k < bl f l) :
+    levelStart f l + k < levelStart f f.levels := by
+  rw [levelStart_eq, levelStart_eq]
+  have := sumTo_le (bl f) f.levels l hl
+  omega
+
+/-! ### the port tables of the construction -/
+
+/-- `parents[port]` of every node below the top level, for every port -/
+theorem build_up (f : FatTree) (hf : f.WF) (nodes : List FNode) (hN : NodesOk f nodes)
+    (hbl : ∀ l, l ≤ f.levels → bl f l = prodL (f.maxLabel l))
+    (c : Nat) (cn : FNode) (hc : nodes[c]? = some cn) (hlev : cn.level < f.levels) (port : Nat)
+    (hport : port < f.up.getD cn.level 0 * f.count.getD cn.level 0) :
+    ∃ (l : FLink) (pn : FNode),
+      ((buildSt f nodes).2.2.find? (fun e => e.1 == c && e.2.1 == port)).map (·.2.2) = some l ∧ l.child = c ∧
+      nodes[l.parent]? = some pn ∧ pn.level = cn.level + 1 ∧
+      LabelSet f.levels pn.label cn.label cn.level (port % f.up.getD cn.level 0) := by
+  have hw : 0 < f.up.getD cn.level 0 := (hf.2 _ hlev).2.1
+  have hjj : port / f.up.getD cn.level 0 < f.count.getD cn.level 0 := Nat.div_lt_of_lt_mul hport
+  have hwl : ∀ l', l' = cn.level + 1 → (f.maxLabel l').getD cn.level 0 = f.up.getD cn.level 0 := by
+    intro l' e
+    rw [maxLabel_getD _ _ _ hlev, if_neg (by omega)]
+  -- the related parent with digit `port % w`
+  obtain ⟨k, pn, hk, hpn, hpl, hplab⟩ := node_with_digit f nodes hN hbl (cn.level + 1) (by omega) cn.label cn.level
+    (port % f.up.getD cn.level 0) (fun _ => by rw [hwl _ rfl]; exact Nat.mod_lt _ hw) (by
+      intro i hi hne
+      have := node_digit_lt f hf nodes hN c cn hc i hi
+      rw [maxLabel_getD _ _ _ hi] at this ⊢
+      split at this <;> split <;> first | exact this | omega)
+  have hr : areRelated f.levels pn cn = true :=
+    areRelated_intro hpl (fun i hi hne => by rw [hplab i hi, if_neg hne])
+  obtain ⟨_, j0, hj0, hcj0, _⟩ := hN.inv c cn hc
+  have hci : c < levelStart f f.levels := by rw [hcj0]; exact index_lt_top f _ _ hlev hj0
+  obtain ⟨_, uid, hmem⟩ := buildSt_reach f nodes c cn hci hc k hk pn hpn hr _ hjj
+  have hport' : pn.label.getD cn.level 0 + port / f.up.getD cn.level 0 * f.up.getD cn.level 0 = port := by
+    rw [hplab _ hlev, if_pos rfl, Nat.mul_comm]; exact Nat.mod_add_div _ _
+  rw [hport'] at hmem
+  -- the first entry with the key is a genuine edge
+  obtain ⟨e, he, h1, h2, hfind⟩ := find_key _ c port ⟨_, hmem, rfl, rfl⟩
+  obtain ⟨child, parent, j, hch, hpa, hrel, h4, h5⟩ := (buildSt_inv f nodes).2 e he
+  rw [← h4, h1, hc] at hch
+  cases hch
+  obtain ⟨r1, r2⟩ := areRelated_spec hrel
+  refine ⟨e.2.2, parent, hfind, by rw [← h4, h1], hpa, r1, ?_⟩
+  intro i hi
+  by_cases e' : i = cn.level
+  · rw [if_pos e', e']
+    have hlt := node_digit_lt f hf nodes hN _ parent hpa cn.level hlev
+    rw [hwl _ r1] at hlt
+    rw [← h2, h5, Nat.add_mul_mod_self_right, Nat.mod_eq_of_lt hlt]
+  · rw [if_neg e']; exact r2 i hi e'
+
+/-- `children[port]` of every switch, for every port -/
+theorem build_down (f : FatTree) (hf : f.WF) (nodes : List FNode) (hN : NodesOk f nodes)
+    (hbl : ∀ l, l ≤ f.levels → bl f l = prodL (f.maxLabel l))
+    (c : Nat) (cn : FNode) (hc : nodes[c]? = some cn) (hlev : cn.level ≠ 0) (port : Nat)
+    (hport : port < f.down.getD (cn.level - 1) 0 * f.count.getD (cn.level - 1) 0) :
+    ∃ (l : FLink) (ch : FNode),
+      ((buildSt f nodes).2.1.find? (fun e => e.1 == c && e.2.1 == port)).map (·.2.2) = some l ∧ l.parent = c ∧
+      nodes[l.child]? = some ch ∧ ch.level + 1 = cn.level ∧
+      LabelSet f.levels ch.label cn.label (cn.level - 1) (port % f.down.getD (cn.level - 1) 0) := by
+  obtain ⟨hcL, j0, hj0, hcj0, _⟩ := hN.inv c cn hc
+  have hlm : cn.level - 1 < f.levels := by omega
+  have hm : 0 < f.down.getD (cn.level - 1) 0 := (hf.2 _ hlm).1
+  have hjj : port / f.down.getD (cn.level - 1) 0 < f.count.getD (cn.level - 1) 0 := Nat.div_lt_of_lt_mul hport
+  have hml : ∀ l', l' = cn.level - 1 → (f.maxLabel l').getD (cn.level - 1) 0 = f.down.getD (cn.level - 1) 0 := by
+    intro l' e
+    rw [maxLabel_getD _ _ _ hlm, if_pos (by omega)]
+  -- the related child with digit `port % m`
+  obtain ⟨k, ch, hk, hch, hchl, hchlab⟩ := node_with_digit f nodes hN hbl (cn.level - 1) (by omega) cn.label (cn.level - 1)
+    (port % f.down.getD (cn.level - 1) 0) (fun _ => by rw [hml _ rfl]; exact Nat.mod_lt _ hm) (by
+      intro i hi hne
+      have := node_digit_lt f hf nodes hN c cn hc i hi
+      rw [maxLabel_getD _ _ _ hi] at this ⊢
+      split at this <;> split <;> first | exact this | omega)
+  have e1 : ch.level + 1 = cn.level := by omega
+  have hr : areRelated f.levels cn ch = true :=
+    areRelated_intro e1.symm (fun i hi hne => by rw [hchlab i hi, if_neg (by omega)])
+  have hci : levelStart f (cn.level - 1) + k < levelStart f f.levels := index_lt_top f _ _ hlm hk
+  have hcn' : nodes[levelStart f (ch.level + 1) + j0]? = some cn := by rw [e1, ← hcj0]; exact hc
+  obtain ⟨⟨uid, hmem⟩, _⟩ := buildSt_reach f nodes _ ch hci hch j0 (by rw [e1]; exact hj0) cn hcn' hr
+    (port / f.down.getD (cn.level - 1) 0) (by rw [hchl]; exact hjj)
+  have hport' : ch.label.getD ch.level 0 + port / f.down.getD (cn.level - 1) 0 * f.down.getD ch.level 0 = port := by
+    rw [hchl, hchlab _ hlm, if_pos rfl, Nat.mul_comm]; exact Nat.mod_add_div _ _
+  rw [hport', e1, ← hcj0] at hmem
+  -- the first entry with the key is a genuine edge
+  obtain ⟨e, he, h1, h2, hfind⟩ := find_key _ c port ⟨_, hmem, rfl, rfl⟩
+  obtain ⟨child, parent, j, hch', hpa, hrel, h4, h5⟩ := (buildSt_inv f nodes).1 e he
+  rw [← h4, h1, hc] at hpa
+  cases hpa
+  obtain ⟨r1, r2⟩ := areRelated_spec hrel
+  have r3 : child.level = cn.level - 1 := by omega
+  refine ⟨e.2.2, child, hfind, by rw [← h4, h1], hch', r1.symm, ?_⟩
+  intro i hi
+  by_cases e' : i = cn.level - 1
+  · rw [if_pos e', e']
+    have hlt := node_digit_lt f hf nodes hN _ child hch' (cn.level - 1) hlm
+    rw [hml _ r3] at hlt
+    rw [← h2, h5, r3, Nat.add_mul_mod_self_right, Nat.mod_eq_of_lt hlt]
+  · rw [if_neg e']; exact (r2 i hi (by omega)).symm
+
+/-! ### the theorem -/
+
+/-- **the modelled construction is well formed, for all well-formed parameters.**
+Only hypothesis besides `f.WF`: `num_children_per_node_` has exactly `levels` entries (the parser guarantees it;
+`nLeaves` multiplies the WHOLE list while the labels only use the first `levels` radices). -/
+theorem build_wf_of_down (f : FatTree) (hf : f.WF) (hdown : f.down.length = f.levels) : FTables.WF f f.build := by
+  have hN := mkNodes_ok f hf
+  have hbl := bl_eq f hdown
+  rw [build_eq]
+  refine ⟨?_, ?_, ?_, ?_, ?_⟩
+  · intro c cn hc
+    exact (hN.inv c cn hc).1
+  · intro c cn hc hlev port hport
+    exact build_up f hf _ hN hbl c cn hc hlev port hport
+  · intro c cn hc hlev port hport
+    exact build_down f hf _ hN hbl c cn hc hlev port hport
+  · intro c cn hc h0 j hj
+    have := node_digit_lt f hf _ hN c cn hc j hj
+    rw [h0, maxLabel_getD _ _ _ hj, if_pos (by omega)] at this
+    exact this
+  · intro c cn c2 cn2 hc hc2 h0 h02 hag
+    obtain ⟨_, j, hj, hcj, hlab⟩ := hN.inv c cn hc
+    obtain ⟨_, j2, hj2, hcj2, hlab2⟩ := hN.inv c2 cn2 hc2
+    rw [h0] at hj hcj hlab
+    rw [h02] at hj2 hcj2 hlab2
+    rw [hbl 0 (Nat.zero_le _)] at hj hj2
+    have : j2 = j := by
+      apply digitsOf_inj (f.maxLabel 0) (maxLabel_pos f hf 0) j2 j hj2 hj
+      intro i hi
+      rw [maxLabel_length] at hi
+      rw [← hlab, ← hlab2]
+      exact (hag i (Nat.zero_le _) hi).symm
+    rw [hcj, hcj2, this]
+
 end FTBuild
+
+open FTBuild
+
+/-- the statement with the three list lengths (only the first one is used) -/
+theorem build_wf (f : FatTree) (hf : f.WF)
+    (hlen : f.down.length = f.levels ∧ f.up.length = f.levels ∧ f.count.length = f.levels) :
+    FTables.WF f f.build :=
+  FTBuild.build_wf_of_down f hf hlen.1
+
+/-- non-vacuity: a 2-level fat tree (4 leaves, 2 + 2 switches, doubled top cables) meets the hypotheses -/
+example : FTables.WF ⟨2, [2, 2], [1, 2], [1, 2], false, true, true, 0, 0⟩
+    (FatTree.build ⟨2, [2, 2], [1, 2], [1, 2], false, true, true, 0, 0⟩) :=
+  build_wf _ (paramsOk_sound _ (by decide)) (by decide)
+
+example : FTables.WF ⟨3, [2, 3, 2], [2, 1, 3], [1, 2, 1], true, false, false, 5, 7⟩
+    (FatTree.build ⟨3, [2, 3, 2], [2, 1, 3], [1, 2, 1], true, false, false, 5, 7⟩) :=
+  build_wf _ (paramsOk_sound _ (by decide)) (by decide)
+
+/-- the length hypothesis is needed: with a second (ignored by the labels) entry in `num_children_per_node_` the model creates
+4 leaves for radices `[2]`, two leaves get the same label and `leaf_inj` fails -/
+example : (⟨1, [2, 2], [1], [1], false, false, false, 0, 0⟩ : FatTree).WF ∧
+    ¬ FTables.WF ⟨1, [2, 2], [1], [1], false, false, false, 0, 0⟩
+      (FatTree.build ⟨1, [2, 2], [1], [1], false, false, false, 0, 0⟩) := by
+  refine ⟨paramsOk_sound _ (by decide), fun h => ?_⟩
+  have := h.leaf_inj 0 ⟨0, 0, 0, [0]⟩ 2 ⟨2, 0, 2, [0]⟩ (by decide) (by decide) rfl rfl (fun _ _ _ => rfl)
+  omega
+
 end SgVerif.C26
